@@ -17,7 +17,9 @@ LEVEL = ('decides the code-shape clauses the optimum depends on: Optimal is cons
          'wherever they are not already registered here under another id. Also runs the LIFE-CYCLE '
          'BUNDLE (…L<n>): the typestate rules over arbitrary API sequences of C10 (usable root state '
          'after every call, inert posting in inconsistent states, entry guards, stored-solution '
-         'extent). Does not decide that the underlying solves are correct')
+         'extent). UNSAT-SAT adds nothing permanent but the negation of a refuted bound (O8); the '
+         'optimality conclusion is best × multiplier in both directions and procedures (O9). Does not '
+         'decide that the underlying solves are correct')
 TECHNIQUE = "static analysis: dominance / table recovery / def-use over rustc MIR"
 
 LSU = "LinearSatUnsat"
